@@ -7,7 +7,7 @@
 From RX Require Import Base.Prelude Base.InvList Tables.Consts Model.Case Model.Op Model.Engine Model.Matcher
      Model.Compiler Model.Api Spec.Syntax Spec.Sem Spec.Parse Proofs.EngineFacts Proofs.MatcherFacts
      Proofs.EngineCorollaries Proofs.LeafFacts Proofs.SmallFacts Proofs.LowerFacts Spec.CharSet Proofs.QuantLaws Proofs.OrderFacts
-     Proofs.PlainPattern Proofs.PlainSpec Proofs.GroupGrammar Proofs.NullableFacts Proofs.ScanFacts Proofs.FrameFacts Proofs.FragmentApi.
+     Proofs.PlainPattern Proofs.PlainSpec Proofs.EscFacts Proofs.GroupGrammar Proofs.NullableFacts Proofs.ScanFacts Proofs.FrameFacts Proofs.FragmentApi.
 
 (* ---------------------------------------------------------------- one-step unfoldings *)
 Lemma p_more_S_bar f xpath st t acc : p_more (S f) xpath st (124%N :: t) acc
@@ -81,7 +81,7 @@ Proof.
     cbn [Db] in H. apply in_flat_map in H as (m & Hm & H).
     apply in_flat_map in Hm as (m1 & Hm1 & Hm). apply lit_le in Hm1. eapply (IHb Okb); [|exact H].
     eapply (Dan_le input ci multi single); [|exact Hm]. tauto.
-  - intros cs q0 b IHb Hok p q Hp H. cbn [ok_b] in Hok. apply andb_true_iff in Hok as [Hok Okb].
+  - intros cs da q0 b IHb Hok p q Hp H. cbn [ok_b] in Hok. apply andb_true_iff in Hok as [Hok Okb].
     apply andb_true_iff in Hok as [_ Hkq]. cbn [Db] in H. apply in_flat_map in H as (m & Hm & H).
     apply in_flat_map in Hm as (m1 & Hm1 & Hm). apply lit_le in Hm1. eapply (IHb Okb); [|exact H].
     eapply (Dd_le input ci multi single xpath); [exact Hkq| |exact Hm]. tauto.
@@ -267,35 +267,40 @@ Proof. destruct eol; reflexivity. Qed.
 Lemma Dan_flags (eol : bool) m : E (if eol then REol else RBol) m = Dan input ci multi single eol m.
 Proof. destruct eol; reflexivity. Qed.
 
-(* a dot *)
-Lemma p_atom_dot f st t : p_atom (S f) xpath st (46%N :: t) = PV (RDot, st) t.
-Proof. reflexivity. Qed.
-Lemma Dd_flags q m : E (dot_re q) m = Dd input ci multi single q m.
-Proof. destruct q as [[k rel]|]; reflexivity. Qed.
-Lemma quantR_dot_env mn mx g : forall fuel k i e e',
-  map fst (quantR (Sem.R fl input RDot) mn mx g fuel k i e)
-  = map fst (quantR (Sem.R fl input RDot) mn mx g fuel k i e').
+(* a dot or a class escape *)
+Lemma p_atom_da f st da t : okat da = true -> p_atom (S f) xpath st (datext da ++ t) = PV (da_re da, st) t.
+Proof.
+  intros Ha. destruct da as [|e]; cbn [datext app da_re]; [reflexivity|].
+  destruct (okesc_cases e Ha) as [->|[->|[->|[->|[->|[->|[->|[->|[->| ->]]]]]]]]]; reflexivity.
+Qed.
+Lemma Dd_flags da q m : E (dot_re da q) m = Dd input ci multi single da q m.
+Proof. destruct q as [[k rel]|]; destruct da; reflexivity. Qed.
+Lemma da_leaf da : exists pr, forall i e, Sem.R fl input (da_re da) i e = one_charR input pr i e.
+Proof. destruct da as [|x]; cbn [da_re]; eexists; intros i e; reflexivity. Qed.
+Lemma quantR_leaf_env r0 pr (Hr : forall i e, Sem.R fl input r0 i e = one_charR input pr i e) mn mx g : forall fuel k i e e',
+  map fst (quantR (Sem.R fl input r0) mn mx g fuel k i e)
+  = map fst (quantR (Sem.R fl input r0) mn mx g fuel k i e').
 Proof.
   induction fuel as [|f IH]; intros k i e e'; [reflexivity|]. cbn [quantR].
   assert (Hm : map fst (if mx_allows k mx then
                  flat_map (fun je : nat * env => let '(j, e'0) := je in
-                             if Nat.eqb j i then [(j, e'0)] else quantR (Sem.R fl input RDot) mn mx g f (S k) j e'0)
-                          (Sem.R fl input RDot i e) else [])
+                             if Nat.eqb j i then [(j, e'0)] else quantR (Sem.R fl input r0) mn mx g f (S k) j e'0)
+                          (Sem.R fl input r0 i e) else [])
              = map fst (if mx_allows k mx then
                  flat_map (fun je : nat * env => let '(j, e'0) := je in
-                             if Nat.eqb j i then [(j, e'0)] else quantR (Sem.R fl input RDot) mn mx g f (S k) j e'0)
-                          (Sem.R fl input RDot i e') else [])).
-  { destruct (mx_allows k mx); [|reflexivity]. cbn [Sem.R]. unfold one_charR.
-    destruct (char_at input i) as [x|]; [|reflexivity]. destruct (dot_mem fl x); [|reflexivity].
+                             if Nat.eqb j i then [(j, e'0)] else quantR (Sem.R fl input r0) mn mx g f (S k) j e'0)
+                          (Sem.R fl input r0 i e') else [])).
+  { destruct (mx_allows k mx); [|reflexivity]. rewrite !Hr. unfold one_charR.
+    destruct (char_at input i) as [x|]; [|reflexivity]. destruct (pr x); [|reflexivity].
     cbn [flat_map]. rewrite !app_nil_r. destruct (Nat.eqb (S i) i); [reflexivity|]. apply IH. }
   destruct g; rewrite !map_app; rewrite Hm; destruct (N.leb mn (N.of_nat k)); reflexivity.
 Qed.
-Lemma O_dot q m e : O (dot_re q) m e = DdO input ci multi single q m.
+Lemma O_dot da q m e : O (dot_re da q) m e = DdO input ci multi single da q m.
 Proof.
-  unfold O, DdO. destruct q as [[k rel]|]; cbn [dot_re Sem.R].
-  - apply quantR_dot_env.
-  - change (dot_mem (fl_of ci multi single)) with (dot_mem fl). unfold one_charR.
-    destruct (char_at input m); [|reflexivity]. destruct (dot_mem fl n0); reflexivity.
+  unfold O, DdO. destruct (da_leaf da) as (pr & Hr). destruct q as [[k rel]|]; cbn [dot_re].
+  - cbn [Sem.R]. apply (quantR_leaf_env (da_re da) pr Hr).
+  - change (Sem.R (fl_of ci multi single) input (da_re da) m []) with (Sem.R fl input (da_re da) m []).
+    rewrite !Hr. unfold one_charR. destruct (char_at input m); [|reflexivity]. destruct (pr n0); reflexivity.
 Qed.
 
 Definition Q_b (b : branch) : Prop :=
@@ -492,28 +497,34 @@ Proof.
         -- intros m1 e1 Hm1. rewrite OS_one. apply O_anchor.
         -- intros m1 q1 Hm1 Hq1. eapply (DanO_le ci single input multi 0); eauto.
       * intros m0 q0 Hm0 Hq0. apply lit_le in Hq0. tauto.
-  - (* BD *) intros cs q b' IHb Hok post st acc fuel Ht Hf.
-    cbn [ok_b] in Hok. apply andb_true_iff in Hok as [Hok Okb]. apply andb_true_iff in Hok as [Ocs Hkq].
+  - (* BD *) intros cs da q b' IHb Hok post st acc fuel Ht Hf.
+    cbn [ok_b] in Hok. apply andb_true_iff in Hok as [Hok Okb]. apply andb_true_iff in Hok as [Hok Hkq].
+    apply andb_true_iff in Hok as [Ocs Hda].
     cbn [show_b] in Hf |- *. set (rest := show_b b') in *.
-    assert (Lsh : length (cs ++ 46%N :: qtext q ++ rest) = length cs + 1 + length (qtext q) + length rest)
-      by (rewrite app_length; cbn [length]; rewrite app_length; lia).
+    assert (Lat : 1 <= length (datext da)) by (destruct da; cbn; lia).
+    assert (Lsh : length (cs ++ datext da ++ qtext q ++ rest) = length cs + length (datext da) + length (qtext q) + length rest)
+      by (rewrite !app_length; lia).
     rewrite Lsh in Hf.
-    replace ((cs ++ 46%N :: qtext q ++ rest) ++ post) with (cs ++ 46%N :: qtext q ++ rest ++ post)
-      by (rewrite <- app_assoc; cbn [app]; rewrite <- app_assoc; reflexivity).
-    rewrite (p_branch_run xpath cs fuel st _ acc Ocs) by (try (cbn; auto 10); lia).
+    replace ((cs ++ datext da ++ qtext q ++ rest) ++ post) with (cs ++ datext da ++ qtext q ++ rest ++ post)
+      by (rewrite <- !app_assoc; reflexivity).
+    rewrite (p_branch_run xpath cs fuel st _ acc Ocs) by (try (destruct da; cbn; auto 12); lia).
     destruct (fuel - length cs) as [|[|[|f3]]] eqn:Ef; try lia.
-    rewrite p_branch_S. change ((46 =? 124) || (46 =? 41))%N with false. cbv iota.
-    rewrite p_piece_S, p_atom_dot. cbn [pbind].
+    assert (Hb0 : p_branch (S (S (S f3))) xpath st (datext da ++ qtext q ++ rest ++ post) (rev (map RChar cs) ++ acc)
+                  = pbind (p_piece (S (S f3)) xpath st (datext da ++ qtext q ++ rest ++ post))
+                          (fun '(pc, st1) rest0 => p_branch (S (S f3)) xpath st1 rest0 (pc :: rev (map RChar cs) ++ acc)))
+      by (destruct da; reflexivity).
+    rewrite Hb0.
+    rewrite p_piece_S, (p_atom_da _ st da _ Hda). cbn [pbind].
     assert (Hh : head_fine (rest ++ post)) by (apply (head_fine_b xpath); auto).
     assert (Epiece : pbind (p_quant (qtext q ++ rest ++ post)) (fun qq rest2 =>
                        match qq with
-                       | None => PV (RDot, st) rest2
+                       | None => PV (da_re da, st) rest2
                        | Some (mn, mx) =>
                            match rest2 with
-                           | 63%N :: rest3 => if xpath then PV (RQuant RDot mn mx false, st) rest3 else PI
-                           | _ => PV (RQuant RDot mn mx true, st) rest2
+                           | 63%N :: rest3 => if xpath then PV (RQuant (da_re da) mn mx false, st) rest3 else PI
+                           | _ => PV (RQuant (da_re da) mn mx true, st) rest2
                            end
-                       end) = PV (dot_re q, st) (rest ++ post)).
+                       end) = PV (dot_re da q, st) (rest ++ post)).
     { destruct q as [[k rel]|]; cbn [qtext dot_re okqq] in *.
       - apply andb_true_iff in Hkq as [Hrx Hkq]. cbn [app]. rewrite <- app_assoc. rewrite (p_quant_sym k _ Hkq). cbn [pbind].
         destruct rel; cbn [app negb].
@@ -521,34 +532,34 @@ Proof.
         + apply (not_qmark_match (rest ++ post)). exact Hh.
       - cbn [app]. rewrite (head_fine_quant (rest ++ post) Hh). reflexivity. }
     rewrite Epiece. cbn [pbind].
-    destruct (IHb Okb post st (dot_re q :: rev (map RChar cs) ++ acc) (S (S f3)) Ht
+    destruct (IHb Okb post st (dot_re da q :: rev (map RChar cs) ++ acc) (S (S f3)) Ht
                 ltac:(fold rest; lia)) as (rs & st' & Eb & Semb & Ob).
     fold rest in Eb. rewrite Eb.
-    exists (map RChar cs ++ dot_re q :: rs), st'. split.
+    exists (map RChar cs ++ dot_re da q :: rs), st'. split.
     + f_equal. f_equal. f_equal. cbn [rev]. rewrite rev_app_distr, rev_involutive, <- !app_assoc. cbn [app]. reflexivity.
     + split.
       { intros m q0 Hm. cbn [Db]. rewrite SE_app.
-      change (dot_re q :: rs) with ([dot_re q] ++ rs).
+      change (dot_re da q :: rs) with ([dot_re da q] ++ rs).
       rewrite SE_app. rewrite SE_in. split.
       * intros (k0 & Hk & Hq). apply SE_in in Hk. destruct Hk as (k1 & Hk1 & Hk).
         apply SE_run in Hk1; auto. apply SE_one in Hk. rewrite Dd_flags in Hk.
         assert (k1 <= n) by (apply lit_le in Hk1; tauto).
-        assert (k0 <= n) by (eapply (Dd_le input ci multi single xpath); eauto).
+        assert (k0 <= n) by (eapply (Dd_le input ci multi single xpath da); eauto).
         apply Semb in Hq; auto.
         apply in_flat_map. exists k0. split; [|exact Hq]. apply in_flat_map. exists k1. auto.
       * intros H. apply in_flat_map in H as (k0 & Hk & Hq). apply in_flat_map in Hk as (k1 & Hk1 & Hk).
         assert (k1 <= n) by (apply lit_le in Hk1; tauto).
-        assert (k0 <= n) by (eapply (Dd_le input ci multi single xpath); eauto).
+        assert (k0 <= n) by (eapply (Dd_le input ci multi single xpath da); eauto).
         exists k0. split; [|apply Semb; auto].
         apply SE_in. exists k1. split; [apply SE_run; auto|]. apply SE_one. rewrite Dd_flags. exact Hk. }
       intros m e Hm. cbn [DbO]. rewrite flat_map_assoc.
-      change (dot_re q :: rs) with ([dot_re q] ++ rs).
-      apply (OS_app (map RChar cs) ([dot_re q] ++ rs) (lit input ci cs)
-               (fun k0 => flat_map (DbO input ci multi single b') (DdO input ci multi single q k0))); auto.
+      change (dot_re da q :: rs) with ([dot_re da q] ++ rs).
+      apply (OS_app (map RChar cs) ([dot_re da q] ++ rs) (lit input ci cs)
+               (fun k0 => flat_map (DbO input ci multi single b') (DdO input ci multi single da q k0))); auto.
       * intros m0 e0 Hm0. apply OS_run. exact Hm0.
-      * intros m0 e0 Hm0. apply (OS_app [dot_re q] rs (DdO input ci multi single q) (DbO input ci multi single b')); auto.
+      * intros m0 e0 Hm0. apply (OS_app [dot_re da q] rs (DdO input ci multi single da q) (DbO input ci multi single b')); auto.
         -- intros m1 e1 Hm1. rewrite OS_one. apply O_dot.
-        -- intros m1 q1 Hm1 Hq1. eapply (DdO_le xpath ci single input multi 0 Hfit Hvalid); eauto.
+        -- intros m1 q1 Hm1 Hq1. eapply (DdO_le xpath ci single input multi 0 Hfit Hvalid da); eauto.
       * intros m0 q0 Hm0 Hq0. apply lit_le in Hq0. tauto.
   - (* AOne *) intros b IHb Hok post st acc f1 f2 Ht Hf1 Hf2. cbn [show_a ok_a] in *.
     assert (Htb : term_b post) by (destruct Ht as [->|(t & ->)]; [left; auto|right; eauto]).
@@ -706,9 +717,9 @@ Proof. vm_compute. reflexivity. Qed.
 
 (* non-vacuity with dots: a.*?b(?:.|c).{2} under XPath, without and with flag s on an input with a line feed *)
 Definition ex_tree_dot : alt :=
-  AOne (BD [97%N] (Some (QStar, true))
-          (BGrp [98%N] false (ACons (BD [] None (BEnd [])) (AOne (BEnd [99%N])))
-                (BD [] (Some (QBr [50%N] BrExact, false)) (BEnd [])))).
+  AOne (BD [97%N] ADot (Some (QStar, true))
+          (BGrp [98%N] false (ACons (BD [] ADot None (BEnd [])) (AOne (BEnd [99%N])))
+                (BD [] ADot (Some (QBr [50%N] BrExact, false)) (BEnd [])))).
 Example ex_tree_dot_text :
   show_a ex_tree_dot = [97; 46; 42; 63; 98; 40; 63; 58; 46; 124; 99; 41; 46; 123; 50; 125]%N /\ ok_a true ex_tree_dot = true.
 Proof. split; reflexivity. Qed.
@@ -718,6 +729,22 @@ Example ex_tree_dot_runs :
                       is_match res [97; 10; 98; 99; 121; 122]%N, is_match res [97; 10; 98; 99; 121]%N)
   | _, _ => (Err ESyntax, Err ESyntax, Err ESyntax, Err ESyntax)
   end = (Ok true, Ok false, Ok true, Ok false).
+Proof. vm_compute. reflexivity. Qed.
+
+(* non-vacuity with class escapes: x\d+(?:\s|-)\w{2}\S*? under XPath *)
+Definition ex_tree_esc : alt :=
+  AOne (BD [120%N] (AE 100%N) (Some (QPlus, false))
+          (BGrp [] false (ACons (BD [] (AE 115%N) None (BEnd [])) (AOne (BEnd [45%N])))
+                (BD [] (AE 119%N) (Some (QBr [50%N] BrExact, false)) (BD [] (AE 83%N) (Some (QStar, true)) (BEnd []))))).
+Example ex_tree_esc_text :
+  show_a ex_tree_esc = [120; 92; 100; 43; 40; 63; 58; 92; 115; 124; 45; 41; 92; 119; 123; 50; 125; 92; 83; 42; 63]%N
+  /\ ok_a true ex_tree_esc = true.
+Proof. split; reflexivity. Qed.
+Example ex_tree_esc_runs :
+  match regex_new true true (show_a ex_tree_esc) []%N with
+  | Ok re => (is_match re [122; 120; 52; 50; 32; 97; 1634]%N, is_match re [120; 52; 45; 95; 33]%N, is_match re [120; 45; 97; 98]%N)
+  | _ => (Err ESyntax, Err ESyntax, Err ESyntax)
+  end = (Ok true, Ok false, Ok false).
 Proof. vm_compute. reflexivity. Qed.
 
 (* the grammar half on this grammar: both parsers accept every printed tree *)
@@ -831,8 +858,8 @@ Proof.
   - intros cs c k rel b IHb H. apply andb_true_iff in H as [H Hb]. apply andb_true_iff in H as [H Hk].
     apply andb_true_iff in H as [H _]. rewrite H, Hk, (IHb Hb), orb_true_r. reflexivity.
   - intros cs eol b IHb H. rewrite andb_false_r in H. discriminate.
-  - intros cs q b IHb H. apply andb_true_iff in H as [H Hb]. apply andb_true_iff in H as [Hcs Hq].
-    rewrite Hcs, (IHb Hb). destruct q as [[k rel]|]; cbn [okqq] in *; [|reflexivity].
+  - intros cs da q b IHb H. apply andb_true_iff in H as [H Hb]. apply andb_true_iff in H as [H Hq].
+    rewrite H, (IHb Hb). destruct q as [[k rel]|]; cbn [okqq] in *; [|reflexivity].
     apply andb_true_iff in Hq as [_ Hk]. rewrite Hk, orb_true_r. reflexivity.
   - intros b IHb H. exact (IHb H).
   - intros b IHb a IHa H. apply andb_true_iff in H as [H1 H2]. rewrite (IHb H1), (IHa H2). reflexivity.
